@@ -5,6 +5,7 @@
 package seqx
 
 import (
+	"errors"
 	"context"
 	"fmt"
 	"reflect"
@@ -144,6 +145,11 @@ func (e *PErr) Error() string {
 }
 
 // Str is a fmt.Stringer; PStr one with a pointer receiver.
+// BadJSON fails to marshal, with an error text that itself needs escaping.
+type BadJSON struct{ Text string }
+
+func (b BadJSON) MarshalJSON() ([]byte, error) { return nil, errors.New(b.Text) }
+
 type Str string
 
 func (s Str) String() string { return string(s) }
